@@ -180,7 +180,22 @@ def check_r182(fx, rep, size_fn):
                                     msg = f"non-child field `{f}` of `{V}` contributes to the size"
                         if ok and kind == "sum":
                             n_child = sum(1 for k in vk.values() if k)
-                            n_size = sum(1 for c, _ in F.calls(arm["body"]) if (F.callee_def(c) or "").endswith("SymbolicValue::<AuxData>::size"))
+                            n_size = 0
+                            for c, cps in F.calls(arm["body"]):
+                                if not (F.callee_def(c) or "").endswith("SymbolicValue::<AuxData>::size"):
+                                    continue
+                                mult = 1
+                                # `[a, b].iter().map(|v| v.size()).sum()`: one term per element of the array literal
+                                for anc, key in reversed(cps):
+                                    if anc.get("k") == "MethodCall" and key == "args" and anc["method"] in ("map", "fold", "for_each"):
+                                        r = anc["recv"]
+                                        while r.get("k") == "MethodCall" and r["method"] in ("iter", "into_iter", "copied", "cloned"):
+                                            r = r["recv"]
+                                        r = F.strip(r)
+                                        if r.get("k") == "Array":
+                                            mult = len(r.get("elems", []))
+                                        break
+                                n_size += mult
                             if n_size != n_child:
                                 ok = False
                                 msg = f"`{V}` has {n_child} child field(s) but {n_size} `.size()` term(s)"
